@@ -16,7 +16,9 @@ func dump(args []string) {
 	specs = append(specs, univ.Extended(true)...)
 	for _, mu := range univ.Misuses() {
 		for _, pl := range univ.MisusePlacements {
-			specs = append(specs, univ.MisuseSpec(mu, pl, false))
+			if ms := univ.MisuseSpec(mu, pl, false); ms != nil {
+				specs = append(specs, ms)
+			}
 		}
 	}
 	bins, err := plug.Build("")
